@@ -824,8 +824,11 @@ def run(ctx: C.Ctx):
                 "run one per sketch (quick tier: a seeded sample). evaluations = phases (setup + passes) of in-guard exception-free "
                 "sketches judged by the oracle + 1 per other sketch compared; distinct non-trivial = distinct parts with more than 2 statements.",
         "samples": samples,
+        "programs": len(parts),
+        "traces_validated_against_impl": st["phases_compared"],
         "distribution": st,
-        "exhaustive": f"loop bodies of length <= {3 if thorough else 2} over the 13-statement alphabet (classified by the model; "
+        "exhaustive": False,
+        "exhaustive_part": f"loop bodies of length <= {3 if thorough else 2} over the 13-statement alphabet (classified by the model; "
                       f"{'all' if thorough else 'a seeded sample of the unsafe ones'} run on the firmware)",
         "guard": "single_owner (coq/Device/DListProg.v; harness guard_py cross-checked against it on every case): lists are declared "
                  "before the main loop from a literal or a range comprehension, each under a fresh name; afterwards only append / remove / "
